@@ -23,8 +23,8 @@ type replay struct {
 	Trace []string   `json:"trace"`
 }
 
-func isFrame(k string) bool  { return k == "key" || k == "inter" || k == "aac" || k == "g711" }
-func isVideo(k string) bool  { return k == "key" || k == "inter" }
+func isFrame(k string) bool { return k == "key" || k == "inter" || k == "aac" || k == "g711" }
+func isVideo(k string) bool { return k == "key" || k == "inter" }
 func hdrClass(k string) string {
 	switch k {
 	case "meta", "metasdf":
